@@ -8,7 +8,7 @@ use crate::{
     container::Container,
     object::{Object, RTObject},
     path::{Component, Path},
-    pointer::Pointer,
+    pointer::{self, Pointer},
     push_pop::PushPopType,
 };
 
@@ -93,33 +93,27 @@ impl Divert {
             return Pointer::new(Some(container), *index);
         }
 
+        // A divert without a target path, or with an empty one, points nowhere
+        let last_component = match self.target_path.borrow().as_ref() {
+            Some(path) => path.get_last_component().cloned(),
+            None => None,
+        };
+        let Some(last_component) = last_component else {
+            return pointer::NULL.clone();
+        };
+
         let target_obj =
             Object::resolve_path(self.clone(), self.target_path.borrow().as_ref().unwrap())
                 .obj
                 .clone();
 
-        let target_pointer = if self
-            .target_path
-            .borrow()
-            .as_ref()
-            .unwrap()
-            .get_last_component()
-            .unwrap()
-            .is_index()
-        {
-            let index = self
-                .target_path
-                .borrow()
-                .as_ref()
-                .unwrap()
-                .get_last_component()
-                .unwrap()
-                .index
-                .unwrap() as i32;
-            Pointer::new(target_obj.get_object().get_parent(), index)
+        let target_pointer = if let Some(index) = last_component.index {
+            Pointer::new(target_obj.get_object().get_parent(), index as i32)
         } else {
-            let c = target_obj.into_any().downcast::<Container>();
-            Pointer::start_of(c.unwrap())
+            match target_obj.into_any().downcast::<Container>() {
+                Ok(c) => Pointer::start_of(c),
+                Err(_) => return pointer::NULL.clone(),
+            }
         };
 
         if let Some(container) = target_pointer.container.as_ref() {
